@@ -24,7 +24,9 @@ type store struct {
 	mu      sync.Mutex
 	chunks  map[desync.ChunkID][]byte
 	failing map[desync.ChunkID]bool
-	hook    func(string, ...interface{})
+	// failFirst: the next k requests for the ID fail, later ones succeed (a transient failure while readers overlap)
+	failFirst map[desync.ChunkID]int
+	hook      func(string, ...interface{})
 }
 
 var errStore = errors.New("injected store failure")
@@ -37,6 +39,10 @@ func (s *store) GetChunk(id desync.ChunkID) (*desync.Chunk, error) {
 	s.mu.Lock()
 	defer s.mu.Unlock()
 	if s.failing[id] {
+		return nil, errStore
+	}
+	if s.failFirst[id] > 0 {
+		s.failFirst[id]--
 		return nil, errStore
 	}
 	b, ok := s.chunks[id]
@@ -277,6 +283,18 @@ func main() {
 			fmt.Fprintln(os.Stderr, err)
 			os.Exit(2)
 		}
+		// every second scenario: the first request(s) for one or two chunks fail, later ones succeed
+		transient := [][]int{}
+		if c%2 == 0 {
+			in.st.failFirst = map[desync.ChunkID]int{}
+			for k := 0; k < 1+r.Intn(2) && len(in.idx.Chunks) > 0; k++ {
+				id := in.idx.Chunks[r.Intn(len(in.idx.Chunks))].ID
+				if _, ok := in.st.failFirst[id]; !ok {
+					in.st.failFirst[id] = 1 + r.Intn(2)
+					transient = append(transient, ints(in.st.chunks[id]))
+				}
+			}
+		}
 		nr := 2 + r.Intn(3)
 		type rq struct{ off, m int }
 		reqs := make([][]rq, nr)
@@ -326,6 +344,9 @@ func main() {
 		})
 		desync.VerifHook = nil
 		w.Emit(trace.M("ev", "reset", "scen", *n+c, "chunks", in.chunks, "nullc", ints(in.null), "concurrent", nr))
+		if len(transient) > 0 {
+			w.Emit(trace.M("ev", "failing", "ids", transient))
+		}
 		for _, m := range results {
 			w.Emit(m)
 		}
